@@ -15,7 +15,6 @@
 //      numbered by first appearance in this snapshot); "-" if none alive;
 //      bytes = !dangling / !oversize when raw_buffer()[0,size()) is not inside live storage: nothing is read, the history stops with end=abandoned
 #include "st_common.hpp"
-#include <sanitizer/lsan_interface.h>
 // exported by the ASan runtime (gcc ships no <sanitizer/allocator_interface.h>)
 extern "C" int __sanitizer_get_ownership(const volatile void *p);
 extern "C" size_t __sanitizer_get_allocated_size(const volatile void *p);
@@ -240,10 +239,9 @@ struct SPool {
 };
 
 static SPool pool;       // storage reused across cases; always left empty
-static bool lsan_off;    // blocks of an abandoned history stay allocated: LeakSanitizer's verdict is void from then on
 
 static std::string abandon_history(std::string &out, long live_before) {
-    pool.abandon(); lsan_off = true; alloc_ctl().live = live_before;
+    pool.abandon(); alloc_ctl().live = live_before;
     out += "end=abandoned";
     return out;
 }
@@ -280,12 +278,12 @@ static std::string run_hist(const Args &a) {
         if (pool.insane) return abandon_history(out, live_before);
     }
     pool.destroy_all();
-    // leak accounting: every block the library obtained through operator new during the history must be gone now
-    // (exact and cheap; LeakSanitizer's stop-the-world check runs every 1024th history)
+    // leak accounting: every block the library obtained through operator new during the history must be gone now.
+    // (Exact, and complete for string_stream, whose only allocations are new char[]/delete[].  LeakSanitizer's
+    // stop-the-world check is deliberately not called here: under machine load it was seen to stall for several
+    // seconds, which the runner reports as a hang of an innocent case.)
     ops.clear(); ops.shrink_to_fit();
-    static unsigned long counter = 0;
     bool leak = alloc_ctl().live != live_before;
-    if (!leak && !lsan_off && (++counter % 1024) == 0) leak = __lsan_do_recoverable_leak_check() != 0;
     alloc_ctl().live = live_before;
     out += std::string("end=") + (leak ? "leak" : "clean");
     return out;
